@@ -136,7 +136,8 @@ func parseMap(dec *msgpack.Decoder, r *bytes.Reader, total int) (*Skeleton, erro
 	if err != nil {
 		return nil, wrapInvalid(err)
 	}
-	skel := &Skeleton{Kind: KindMap, MapFields: make([]MapField, 0, n)}
+	// Every entry occupies at least two bytes (key code + value code).
+	skel := &Skeleton{Kind: KindMap, MapFields: make([]MapField, 0, boundedCap(n, r.Len()/2))}
 	for i := 0; i < n; i++ {
 		// V1: keys must be msgpack strings.
 		code, err := dec.PeekCode()
@@ -164,7 +165,8 @@ func parseArray(dec *msgpack.Decoder, r *bytes.Reader, total int) (*Skeleton, er
 	if err != nil {
 		return nil, wrapInvalid(err)
 	}
-	skel := &Skeleton{Kind: KindArray, ArrayItems: make([]*Skeleton, 0, n)}
+	// Every element occupies at least one byte.
+	skel := &Skeleton{Kind: KindArray, ArrayItems: make([]*Skeleton, 0, boundedCap(n, r.Len()))}
 	for i := 0; i < n; i++ {
 		val, err := parseNode(dec, r, total)
 		if err != nil {
@@ -173,6 +175,22 @@ func parseArray(dec *msgpack.Decoder, r *bytes.Reader, total int) (*Skeleton, er
 		skel.ArrayItems = append(skel.ArrayItems, val)
 	}
 	return skel, nil
+}
+
+// boundedCap turns an element count read from a length header into a safe
+// pre-allocation size. The header is untrusted input: a 5-byte blob can declare
+// 2^32-1 elements, and sizing a slice by it would request tens of gigabytes
+// before the first (missing) element is read. The capacity is therefore limited
+// to the number of elements the remaining input can actually hold; a truthful
+// header is never reduced, a lying one fails with EOF a few bytes later.
+func boundedCap(n, fit int) int {
+	if n < 0 || fit < 0 {
+		return 0
+	}
+	if n > fit {
+		return fit
+	}
+	return n
 }
 
 // leafBytes returns the raw msgpack bytes backing a leaf skeleton: either the
